@@ -29,7 +29,8 @@ func b2i(b bool) int {
 // runMetagrid writes <out>.in (model input lines) and <out>.impl (observed outputs).
 // Every line of .in: "meta <now> <created> <ends> <timeout|-> <expire> <refreshed>".
 // Output fields: ended expired timedout lifetime cooldown_end on_cooldown next_refresh should_refresh
-//                v_ends_in v_active v_timeout_in v_expire_in v_next_in v_cooldown v_cooldown_secs validate
+//
+//	v_ends_in v_active v_timeout_in v_expire_in v_next_in v_cooldown v_cooldown_secs validate
 func runMetagrid(args []string) error {
 	fs := flag.NewFlagSet("metagrid", flag.ExitOnError)
 	out := fs.String("out", "metagrid", "output prefix")
